@@ -34,7 +34,9 @@ func selCollideSub(prop string) *engine.Sub {
 		Name:   "texts-whose-hashes-collide",
 		Serial: true,
 		Rule:   "pairs of distinct selector texts .acct_xxxxxxxx of one length (C13: like patterns pxxxxxxxx*) with the same sum under FNV-1a/32, FNV-1/32, CRC-32 (IEEE, Castagnoli), Adler-32, and FNV-1a/64 folded or cut to 32 bits (3 pairs each, found by enumeration and re-verified at start-up); the two texts of a pair enter the library one after the other, in both orders, through selector.Parse, a policy constructor, policy.FromDagJson and policy.FromIPLD; on data in which the two fields hold 1 and 2 (C13: a string that only the first pattern accepts) each selector selects its own field, each statement == sel 1 is true for the first text and false for the second, and each parsed selector prints its own text; non-trivial = all",
-		Bound:  func(string) string { return fmt.Sprintf("%d hash functions x %d pairs x 4 entry forms x 2 orders", len(collideHashes), perHash) },
+		Bound: func(string) string {
+			return fmt.Sprintf("%d hash functions x %d pairs x 4 entry forms x 2 orders", len(collideHashes), perHash)
+		},
 		Gen: func(tier string, emit func(any) bool) {
 			n := len(collideHashes) * perHash
 			for p := 0; p < n; p++ {
